@@ -9,7 +9,7 @@ import subprocess
 import sys
 
 VERIF = os.path.dirname(os.path.dirname(os.path.abspath(__file__)))
-WT = "/tmp/seedintake_wt"
+WT = os.environ.get("SEEDINTAKE_WT", "/tmp/seedintake_wt")
 
 
 def sh(cmd, cwd, env=None, timeout=1800):
